@@ -7,7 +7,7 @@ SCR=/tmp/mutant-scratch/repo
 rm -rf $SCR; mkdir -p /tmp/mutant-scratch
 git -C /repo worktree prune
 git -C /repo worktree add -q --detach $SCR HEAD || exit 2
-( cd $SCR && git apply $PATCH ) || { echo "PATCH-APPLY-FAILED"; git -C /repo worktree remove --force $SCR; exit 2; }
+( cd $SCR && ( git apply $PATCH 2>/dev/null || git apply --3way $PATCH 2>/dev/null || patch -p1 --fuzz=3 -s < $PATCH ) ) || { echo "PATCH-APPLY-FAILED"; git -C /repo worktree remove --force $SCR; exit 2; }
 cd /verif
 PCMON_REPO=$SCR PCMON_EVIDENCE_DIR=/tmp/mutant-scratch/evidence ./check $PROP $TIER 2>&1 | grep -E "^(VIOLATION|KNOWN-FINDING|INCONCLUSIVE)|oracle evaluations|signature" | cut -c1-400
 RC=${PIPESTATUS[0]}
